@@ -1,7 +1,9 @@
 package checks
 
 import (
+	"context"
 	"fmt"
+	"net"
 	"runtime"
 	"sync"
 	"time"
@@ -91,6 +93,9 @@ func runC17(b *mon.B) {
 	r := gen.New(uint64(b.Seed), 0xC17, uint64(b.Index))
 	secret := []byte("c17")
 	caseNo := 0
+	if b.Thorough() && b.Index == 0 && b.Only < 0 {
+		c17RealTCP(b)
+	}
 
 	// ---------------- shutdown scenarios ----------------
 	nScen := b.N(60, 1500)
@@ -331,6 +336,102 @@ func runC17(b *mon.B) {
 		}
 		time.Sleep(time.Millisecond)
 		judgeC17Log(b, caseNo, "pacing/"+pat, []string{pat}, []*simnet.Conn{c}, world.Events(), world)
+	}
+}
+
+// c17RealTCP repeats the idle / shutdown scenarios once over real loopback TCP in
+// real time (thorough tier, batch 0): corroborates that the virtual-time emulation
+// hides nothing. Timing anomalies are reported as inconclusive; only state-based
+// observations (a connection still open after Serve returned) are violations.
+func c17RealTCP(b *mon.B) {
+	l, err := net.Listen("tcp", "127.0.0.1:0")
+	if err != nil {
+		b.Inconclusive("real TCP: cannot listen on loopback: %v", err)
+		return
+	}
+	secret := []byte("c17-tcp")
+	tp := tap.New(nil)
+	h := &c17Handler{release: make(chan struct{})}
+	close(h.release)
+	srv := tq.NewServer(tap.NewLogger(false), &tap.Static{Secret: secret, Handler: tp.Wrap("initial", h)})
+	ctx, cancel := context.WithCancel(context.Background())
+	served := make(chan struct{})
+	go func() { srv.Serve(ctx, l.(*net.TCPListener)); close(served) }()
+	r := gen.New(17)
+	dial := func() net.Conn {
+		c, err := net.Dial("tcp", l.Addr().String())
+		if err != nil {
+			return nil
+		}
+		return c
+	}
+	idle, partial, done := dial(), dial(), dial()
+	if idle == nil || partial == nil || done == nil {
+		b.Inconclusive("real TCP: cannot connect")
+		cancel()
+		return
+	}
+	w := pktSpec{H: rfc8907.Header{Major: 0xc, Type: 1, Seq: 1, Session: 9}, Clear: markedBody(r, 1, 'x')}.wire(secret)
+	partial.Write(w[:7])
+	done.Write(w)
+	start := time.Now()
+	closedAfter := func(c net.Conn, limit time.Duration) time.Duration {
+		buf := make([]byte, 4096)
+		c.SetReadDeadline(time.Now().Add(limit))
+		for {
+			if _, err := c.Read(buf); err != nil {
+				if ne, ok := err.(net.Error); ok && ne.Timeout() {
+					return -1
+				}
+				return time.Since(start)
+			}
+		}
+	}
+	var wg sync.WaitGroup
+	res := make([]time.Duration, 3)
+	for i, c := range []net.Conn{idle, partial, done} {
+		wg.Add(1)
+		go func(i int, c net.Conn) { defer wg.Done(); res[i] = closedAfter(c, 45*time.Second) }(i, c)
+	}
+	wg.Wait()
+	b.Eval(1)
+	b.Class("real-tcp/idle-reaping")
+	for i, name := range []string{"idle", "partial-header", "after-complete-exchange"} {
+		if res[i] < 0 {
+			b.Inconclusive("real TCP: %s connection was not closed by the server within 45 s", name)
+		} else {
+			b.Max("max:real_tcp_seconds_until_"+name+"_connection_closed", int(res[i]/time.Second))
+			if res[i] < 10*time.Second {
+				b.Inconclusive("real TCP: %s connection closed after only %v (15 s read deadline expected)", name, res[i])
+			}
+		}
+	}
+	if tp.Count() != 1 {
+		b.Violate(-1, "C17/real-tcp/handler-count", fmt.Sprintf("real TCP: %d handler calls for one complete packet and one partial packet", tp.Count()), nil)
+	}
+	// shutdown with one idle connection open
+	open1 := dial()
+	time.Sleep(200 * time.Millisecond)
+	cancelAt := time.Now()
+	cancel()
+	select {
+	case <-served:
+		b.Max("max:real_tcp_seconds_cancel_to_serve_return", int(time.Since(cancelAt)/time.Second))
+	case <-time.After(60 * time.Second):
+		b.Inconclusive("real TCP: Serve did not return within 60 s of cancellation")
+		return
+	}
+	b.Class("real-tcp/shutdown")
+	if open1 != nil {
+		open1.SetReadDeadline(time.Now().Add(3 * time.Second))
+		if _, err := open1.Read(make([]byte, 16)); err != nil {
+			if ne, ok := err.(net.Error); ok && ne.Timeout() {
+				b.Violate(-1, "C17/real-tcp/connection-open-after-serve-returned", "real TCP: 3 s after Serve returned a connection accepted before cancellation is still open", nil)
+			}
+		}
+	}
+	if _, err := net.DialTimeout("tcp", l.Addr().String(), time.Second); err == nil {
+		b.Violate(-1, "C17/real-tcp/listener-open-after-serve-returned", "real TCP: the listener still accepts connections after Serve returned", nil)
 	}
 }
 
